@@ -137,19 +137,30 @@ def run_server(case):
             sv.ixes[ca_of(i)] = r
         for i in case["cx0"]:
             sv.cxes[ca_of(i)] = mk(i)
-    ident = {ca_of(i): i for i in socks}
+    every = {i: [s] for i, s in socks.items()}      # all sockets ever created per address id, in creation order
     out = []
     for p in case["passes"]:
-        for s in socks.values():
-            s.sends, s.recvs, s.n_send, s.n_recv = [], [], 0, 0
-            s.handshake = ("ssl", int(ssl.SSL_ERROR_WANT_READ))
+        repl = []
+        for i, dead in p.get("acc", []):              # connections the listen socket hands out during this pass
+            sock = c09.FakeSock(False, ca_of(i), c09.HA)
+            sock.ident = i
+            sock.on_close = lambda s: closed.append(s.ident)
+            sock.dead = bool(dead)                    # reset by the peer before it is accepted: getpeername() raises ENOTCONN
+            old = [o for o in every.get(i, []) if not o.closed]
+            every.setdefault(i, []).append(sock)
+            socks[i] = sock
+            sv.ss.queue.append((sock, ca_of(i)))
+            repl.append([i, bool(dead), old, sock])
+        for group in every.values():
+            for s in group:
+                s.sends, s.recvs, s.n_send, s.n_recv = [["acc", 0]], [], 0, 0
+                s.handshake = ("ssl", int(ssl.SSL_ERROR_WANT_READ))
         for i, h in p.get("hs", []):
-            socks[i].handshake = None if h[0] == "done" else (h[1], h[2])
+            for s in every.get(i, []):
+                s.handshake = None if h[0] == "done" else (h[1], h[2])
         for i, sc in p.get("io", []):
-            socks[i].sends, socks[i].recvs = [sc["send"]], list(sc["recvs"])
-        for s in socks.values():
-            if not s.sends:
-                s.sends = [["acc", 0]]
+            for s in every.get(i, []):
+                s.sends, s.recvs = [sc["send"]], list(sc["recvs"])
         if wl is not None and p.get("wlop"):          # the server's WireLog is closed / reconfigured between passes
             if p["wlop"][0] == "close":
                 wl.close()
@@ -170,15 +181,24 @@ def run_server(case):
                 sv.service()
         except Exception as ex:
             res = ["exc", exn_kind(ex)]
+        ident = lambda ca: ca[1] - 40000
+        reg = {}
+        for ca, r in list(sv.ixes.items()) + list(getattr(sv, "cxes", {}).items()):
+            reg.setdefault(ident(ca), []).append(r.cs)
         out.append({"res": res,
-                    "ixes": [[ident[ca], bool(r.cutoff), len(r.txbs), len(r.rxbs)] for ca, r in sv.ixes.items()],
-                    "cxes": [ident[ca] for ca in getattr(sv, "cxes", {})],
+                    "ixes": [[ident(ca), bool(r.cutoff), len(r.txbs), len(r.rxbs)] for ca, r in sv.ixes.items()],
+                    "cxes": [ident(ca) for ca in getattr(sv, "cxes", {})],
                     "closed": list(closed),
-                    "calls": {str(i): [s.n_recv, s.n_send] for i, s in socks.items()},
-                    "nrec": len(records), "moved": {str(i): [len(s.delivered), len(s.accepted)] for i, s in socks.items()}})
-    for s in socks.values():
-        if s.misuse:
-            raise AssertionError("fake socket misuse: %s" % s.misuse)
+                    "calls": {str(i): [sum(s.n_recv for s in g), sum(s.n_send for s in g)] for i, g in every.items()},
+                    "repl": [[i, dead, len(old), all(o.closed for o in old), new.closed, any(c is new for c in reg.get(i, []))]
+                             for i, dead, old, new in repl],
+                    "nosock": sorted(ident(ca) for ca, r in sv.ixes.items() if r.cs is None and not r.cutoff),
+                    "nrec": len(records),
+                    "moved": {str(i): [sum(len(s.delivered) for s in g), sum(len(s.accepted) for s in g)] for i, g in every.items()}})
+    for g in every.values():
+        for s in g:
+            if s.misuse:
+                raise AssertionError("fake socket misuse: %s" % s.misuse)
     obs = {"passes": out}
     if case.get("accept"):
         obs["config"] = config
@@ -186,13 +206,14 @@ def run_server(case):
         log = []
         for _, b in records:
             rec = ["bad", b.hex()]
-            for i in socks:
+            for i in every:
                 for r in c09.parse_records({"mode": 2}, [("shared", b)], str(ca_of(i)).encode()):
                     if r[0] != "bad":
                         rec = [r[0], i, r[1]]
             log.append(rec)
         obs["wlog"] = log
-        obs["moved"] = {str(i): [bytes(s.delivered).hex(), bytes(s.accepted).hex()] for i, s in socks.items()}
+        obs["moved"] = {str(i): [b"".join(bytes(s.delivered) for s in g).hex(), b"".join(bytes(s.accepted) for s in g).hex()]
+                        for i, g in every.items()}
         wl.close()
     return obs
 
@@ -328,16 +349,35 @@ def failures(case, obs):
         io = {i: s for i, s in p.get("io", [])}
         hs = {i: h for i, h in p.get("hs", [])}
         now = {e[0]: e[1:] for e in po["ixes"]}
+        accepted_now = {i for i, dead in p.get("acc", []) if not dead}
+        # accept servicing: a repeated address closes the old connection and installs the new one; a connection that
+        # was already reset when accepted is closed and skipped; nothing of that may escape
+        if p.get("acc") and po["res"][0] != "ok" and all(c == [0, 0] for c in po["calls"].values()):
+            any_raise = True
+            out.append(("escape", "accept", "-", 0, f"Server.service raised {po['res'][1]} while accepting {p['acc']}: nobody was serviced"))
+        elif po["res"][0] == "ok":
+            for i, dead, n_old, old_closed, new_closed, new_reg in po.get("repl", []):
+                quiet = i not in hs or hs[i][0] == "done" or hs[i][2] in (2, 3)
+                scr = io.get(i)
+                quiet = quiet and (not scr or (first_stop(scr["recvs"]) is None and scr["send"][0] == "acc"))
+                if dead and (new_reg or not new_closed):
+                    out.append(("accept", "accept", "-", 0, f"connection {i} was already reset when accepted but was kept / not closed"))
+                if not dead and n_old and not old_closed and not case["tls"]:
+                    out.append(("accept", "accept", "-", 0, f"address {i} connected again: the old connection's socket was not closed"))
+                if not dead and quiet and (new_closed or not new_reg):
+                    out.append(("accept", "accept", "-", 0, f"address {i} connected again: the new connection is closed or not registered"))
+            if po.get("nosock"):
+                out.append(("accept", "accept", "-", 0, f"connections {po['nosock']} are in .ixes without a socket and not cut off"))
         def cut_before_send(i):
             """connection i was marked cutoff before this pass, or its receive phase in this pass met EOF / a
             handled connection-level fault"""
-            if before.get(i, [False])[0]:
+            if before.get(i, [False])[0] and not (i in accepted_now and not case["tls"]):
                 return True
             scr = io.get(i)
             if not scr:
                 return False
             j = first_stop(scr["recvs"])
-            if j is None or po["calls"][str(i)][0] < j + 1:
+            if j is None or po["calls"].get(str(i), [0, 0])[0] < j + 1:
                 return False
             a = scr["recvs"][j]
             return a[0] == "data" or (in_domain("recv", kind, a[1], a[2]) and not (a[1] == "os" and a[2] == errno.EPIPE))
@@ -357,7 +397,7 @@ def failures(case, obs):
                 rc = readers[-1] if readers else None
                 scr = io.get(rc) if rc is not None else None
                 j = first_stop(scr["recvs"]) if scr else None
-                if scr and j is not None and scr["recvs"][j][0] == "err" and po["calls"][str(rc)][0] >= j + 1:
+                if scr and j is not None and scr["recvs"][j][0] == "err" and po["calls"].get(str(rc), [0, 0])[0] >= j + 1:
                     b = scr["recvs"][j]
                     if in_domain("recv", kind, b[1], b[2]):
                         out.append(("escape", "recv", b[1], b[2], f"Server.service raised {po['res'][1]} on receive fault {b[1]}:{b[2]} of connection {rc}"))
@@ -375,7 +415,7 @@ def failures(case, obs):
             else:
                 out.append(("escape", "?", "?", 0, "Server.service raised without a scripted fault"))
         for i, scr in io.items():
-            nr, ns = po["calls"][str(i)]
+            nr, ns = po["calls"].get(str(i), [0, 0])
             j = first_stop(scr["recvs"])
             flt = None
             if j is not None and scr["recvs"][j][0] == "err" and nr >= j + 1:
@@ -388,11 +428,13 @@ def failures(case, obs):
                 elif not now[i][0] and po["res"][0] == "ok":
                     out.append(("unmarked", flt[0], flt[1], flt[2], f"connection {i}: fault {flt[1]}:{flt[2]} at {flt[0]} did not set cutoff"))
         for i, h in hs.items():
-            if h[0] == "err" and in_domain("handshake", None, h[1], h[2]) and i in [x for x in before.get("_cx", case["cx0"])]:
-                if i in po["cxes"] or i in now or i not in po["closed"]:
+            pending = set(before.get("_cx", case["cx0"])) | (accepted_now if case["tls"] else set())
+            if h[0] == "err" and in_domain("handshake", None, h[1], h[2]) and i in pending:
+                if i in po["cxes"] or po["closed"].count(i) <= before.get("_closed", []).count(i):
                     out.append(("unmarked", "handshake-remoter", h[1], h[2], f"pending connection {i}: fault {h[1]}:{h[2]} did not abort it"))
         before = dict(now)
         before["_cx"] = list(po["cxes"])
+        before["_closed"] = list(po["closed"])
     for c in obs.get("config", []):
         out.append(("config", "accept", "-", 0, "accept servicing did not hand the server's configuration down: " + c))
     if "wlog" in obs:
@@ -414,14 +456,16 @@ def failures(case, obs):
             for i, (rx, tx) in obs["moved"].items():
                 lrx = "".join(r[2] for r in new if r[0] == "rx" and str(r[1]) == i)
                 ltx = "".join(r[2] for r in new if r[0] == "tx" and str(r[1]) == i)
-                want_rx = rx[2 * p_moved[i][0]:2 * po["moved"][i][0]] if (opened and rxed) else ""
-                want_tx = tx[2 * p_moved[i][1]:2 * po["moved"][i][1]] if (opened and txed) else ""
+                a0, a1 = p_moved.get(i, [0, 0]), po["moved"].get(i, [0, 0])
+                want_rx = rx[2 * a0[0]:2 * a1[0]] if (opened and rxed) else ""
+                want_tx = tx[2 * a0[1]:2 * a1[1]] if (opened and txed) else ""
                 if lrx != want_rx or ltx != want_tx:
                     out.append(("wirelog", "wl", "-", 0, f"pass {n}, connection {i}: wire log differs from the bytes actually "
                                 f"received/sent while logging was enabled (rx {opened and rxed}, tx {opened and txed})"))
             p_n, p_moved = po["nrec"], po["moved"]
     # isolation: every connection evolves exactly as if it were the only one
-    if not any_raise and not out and len(case["ix0"]) + len(case["cx0"]) > 1:
+    repeats = any(p.get("acc") for p in case["passes"])     # with accepts the histories of one address are not independent runs
+    if not any_raise and not out and not repeats and len(case["ix0"]) + len(case["cx0"]) > 1:
         for i in case["ix0"] + case["cx0"]:
             sub = {"scene": "server", "tls": case["tls"], "single": case.get("single", False), "wl": case.get("wl", False),
                    "accept": case.get("accept", False),
@@ -473,8 +517,9 @@ def _script(sc):
 
 
 def _pass(p):
-    return "{| TcpFault.p_tx := %s; TcpFault.p_hs := %s; TcpFault.p_io := %s |}" % (
+    return "{| TcpFault.p_tx := %s; TcpFault.p_acc := %s; TcpFault.p_hs := %s; TcpFault.p_io := %s |}" % (
         coq_list([f"({coq_N(i)}, {coq_bytes(bytes.fromhex(hx))})" for i, hx in p.get("tx", [])], "N * bytes"),
+        coq_list([f"({coq_N(i)}, {coq_bool(d)})" for i, d in p.get("acc", [])], "N * bool"),
         coq_list([f"({coq_N(i)}, {_h(h)})" for i, h in p.get("hs", [])], "N * TcpFault.hres"),
         coq_list([f"({coq_N(i)}, {_script(sc)})" for i, sc in p.get("io", [])], "N * TcpFault.script"))
 
@@ -572,6 +617,20 @@ def directed():
                 out.append({"scene": "server", "tls": tls, "wl": True, "single": single, "ix0": [1, 2, 3], "cx0": [],
                             "passes": [{"tx": [[1, P1], [2, P1], [3, P1]], "io": [[1, good], [2, bad], [3, good]]},
                                        {"tx": [[3, "ff"]], "io": [[1, good], [2, {"recvs": [["err", "os", errno.ECONNRESET]], "send": ["acc", 1]}], [3, good]]}]})
+        # an accepted address repeats while the earlier connection of that address is still registered: alive, cut
+        # off by a reset, or (TLS) still handshaking / established; and a connection already reset when accepted
+        for state in ("alive", "cut", "eof"):
+            first = {"alive": good, "cut": {"recvs": [["data", "aa"], ["err", "os", errno.ECONNRESET]], "send": ["acc", 1]},
+                     "eof": {"recvs": [["data", ""]], "send": ["acc", 1]}}[state]
+            for acc2 in ([[2, False]], [[2, False], [4, True]], [[4, True], [2, False], [5, False]]):
+                out.append({"scene": "server", "tls": tls, "wl": True, "accept": True,
+                            "ix0": [] if tls else [1, 2, 3], "cx0": [1, 2, 3] if tls else [],
+                            "passes": [{"hs": [[1, ["done"]], [2, ["done"]], [3, ["done"]]], "io": [[1, good], [2, first], [3, good]]},
+                                       {"tx": [[1, P1], [2, "beef"], [3, P1]], "acc": acc2,
+                                        "hs": [[2, ["done"]], [5, ["done"]]], "io": [[1, good], [2, good], [3, good], [5, good]]},
+                                       {"tx": [[2, "cafe"], [1, "ff"]], "hs": [[2, ["done"]]], "io": [[1, good], [2, good], [3, good], [5, good]]},
+                                       {"acc": [[2, False]], "io": [[1, good], [2, good], [3, good]]},
+                                       {"hs": [[2, ["done"]]], "tx": [[2, "0102"]], "io": [[1, good], [2, good], [3, good]]}]})
         for wlflag in (True, False):
             ids = [1, 2, 3]
             out.append({"scene": "server", "tls": tls, "wl": wlflag, "accept": True,
@@ -622,10 +681,11 @@ def gen_server(rng):
     wild = rng.random() < 0.12        # unlisted codes too
     passes = []
     dead = set()                      # connections whose receive side was scripted to stop (EOF / fault)
+    cx0_dyn = set()
     for _ in range(rng.choice([1, 2, 3])):
         tx = [[i, c09.hx(rng, rng.randint(1, 20))] for i in ids if rng.random() < 0.6]
         hs = []
-        for i in cx0:
+        for i in list(cx0) + sorted(cx0_dyn - set(cx0)):
             r = rng.random()
             if r < 0.35:
                 hs.append([i, ["done"]])
@@ -669,7 +729,19 @@ def gen_server(rng):
             io.append([i, {"recvs": recvs, "send": send}])
             if any(a[0] == "err" and not is_block(kind, a[1], a[2]) or a == ["data", ""] for a in recvs):
                 dead.add(i)
-        passes.append({"tx": tx, "hs": hs, "io": io})
+        pas = {"tx": tx, "hs": hs, "io": io}
+        if rng.random() < 0.3:
+            acc = []
+            for _ in range(rng.choice([1, 1, 2])):
+                i = rng.choice(ids) if rng.random() < 0.7 else max(ids) + 1
+                if i not in ids:
+                    ids.append(i)
+                if tls and i not in cx0:
+                    cx0_dyn.add(i)
+                if i not in [a[0] for a in acc]:
+                    acc.append([i, rng.random() < 0.2])
+            pas["acc"] = acc
+        passes.append(pas)
     case = {"scene": "server", "tls": tls, "ix0": ix0, "cx0": cx0, "passes": passes}
     if rng.random() < 0.2:
         case["single"] = True
@@ -745,7 +817,7 @@ def nontrivial(case, obs):
     faulted = moved = False
     for p, po in zip(case["passes"], obs["passes"]):
         for i, scr in p.get("io", []):
-            nr, ns = po["calls"][str(i)]
+            nr, ns = po["calls"].get(str(i), [0, 0])
             j = first_stop(scr["recvs"])
             if (j is not None and scr["recvs"][j][0] == "err" and nr >= j + 1) or (scr["send"][0] == "err" and ns == 1):
                 faulted = True
